@@ -287,7 +287,11 @@ Eval(e, s) ==
                                   IF Cardinality({i \in 1..Len(e.parts) : e.parts[i].k = "fmt" /\ HasCall(e.parts[i].e)}) >= 2
                                   THEN Feat(s1, {"multi-effect-operands"}) ELSE s1)
       [] e.k = "list" -> LET r == EvalSeq(e.es, 1, OrderFeat(e.es, s1)) IN
-           (IF \E i \in 1..Len(r.v) : IsErr(r.v[i]) THEN R(ERR, r.s) ELSE Alloc(r.s, r.v))
+           (IF \E i \in 1..Len(r.v) : IsErr(r.v[i]) THEN R(ERR, r.s)
+            ELSE LET a == Alloc(r.s, r.v) IN
+                 \* a literal with an element read from a sensor: no transpile-time length exists for it (hr), so the
+                 \* known finding len-after-nested-mutation (a length folded at transpile time) does not apply to it
+                 IF \E i \in 1..Len(e.es) : e.es[i].k = "aread" THEN R(a.v, [a.s EXCEPT !.hr = @ \cup {a.v.id}]) ELSE a)
       [] e.k = "comp" -> LET c == Eval(e.count, s1) IN
            (IF IsErr(c.v) \/ c.v.t # "i" THEN R(ERR, c.s)
             ELSE LET scope == IF HasLocals(c.s) THEN c.s.l ELSE c.s.g
@@ -310,7 +314,7 @@ Eval(e, s) ==
             ELSE R(Builtin(e.f, r.v, r.s),
                    Feat(r.s, BuiltinFeat(e.f, r.v) \cup
                              (IF e.f \in {"abs", "min", "max"} /\ (\E i \in 1..Len(e.args) : HasCall(e.args[i])) THEN {"macro-arg-call"} ELSE {})
-                             \cup (IF e.f = "len" /\ Len(r.v) = 1 /\ r.v[1].t = "l" /\ r.v[1].id \in r.s.hm THEN {"len-after-nested-mutation"} ELSE {}))))
+                             \cup (IF e.f = "len" /\ Len(r.v) = 1 /\ r.v[1].t = "l" /\ r.v[1].id \in r.s.hm \ r.s.hr THEN {"len-after-nested-mutation"} ELSE {}))))
       [] OTHER -> R(ERR, s1)
 
 CallFn(f, args, s) ==
@@ -414,7 +418,7 @@ PyLive(s) == SumLens(s, ReachIds(s))
 Sampled(s) == [s EXCEPT !.lv = Append(@, PyLive(s))]
 
 S0 == [g |-> [x \in {} |-> ERR], l |-> NoLocals, gl |-> {}, h |-> <<>>, out |-> <<>>, ok |-> TRUE, fuel |-> FUEL0,
-       sig |-> "n", ret |-> VNone, depth |-> 0, fn |-> "", inp |-> 1, born |-> {}, fresh |-> {}, inloop |-> FALSE, nest |-> 0, hm |-> {}, lv |-> <<>>, ty |-> [x \in {} |-> {}], ty0 |-> [x \in {} |-> "none"], feat |-> {}]
+       sig |-> "n", ret |-> VNone, depth |-> 0, fn |-> "", inp |-> 1, born |-> {}, fresh |-> {}, inloop |-> FALSE, nest |-> 0, hm |-> {}, hr |-> {}, lv |-> <<>>, ty |-> [x \in {} |-> {}], ty0 |-> [x \in {} |-> "none"], feat |-> {}]
 Init == pid \in 1..Len(Progs) /\ st = S0 /\ phase = "boot" /\ pass = 0
 Setup == /\ phase = "boot" /\ phase' = "setup" /\ pass' = 0
          /\ st' = Sampled(Exec(Prog.setup, 1, st)) /\ UNCHANGED pid
